@@ -72,6 +72,13 @@ func caseGen() *rapid.Generator[Case] {
 		}
 		// mostly unset/true/false, rarely a non-boolean
 		c.Skip = rapid.SliceOfN(rapid.SampledFrom([]int{0, 0, 0, 1, 1, 2, 2, 1, 2, 0, 1, 0, 1, 2, 0, 1, 1, 2, 0, 1, 2, 0, 1, 1, 0, 2, 1, 0, 1, 2, 0, 1, 0, 1, 2, 1, 0, 1, 2, 3}), 0, 7).Draw(t, "skip")
+		if rapid.IntRange(0, 2).Draw(t, "props?") == 0 {
+			pg := rapid.Custom(func(t *rapid.T) PropOp {
+				return PropOp{Col: rapid.IntRange(0, 4).Draw(t, "col"), Key: rapid.SampledFrom([]string{"skip", "skip", "skip", "align", "user"}).Draw(t, "key"),
+					Val: rapid.SampledFrom([]int{0, 0, 1, 1, 2, 2, 1, 2, 0, 1, 2, 0, 1, 2, 1, 2, 0, 1, 2, 3}).Draw(t, "val")}
+			})
+			c.Props = rapid.SliceOfN(pg, 1, 8).Draw(t, "props")
+		}
 		return c
 	})
 }
